@@ -305,7 +305,9 @@ func c12Scenarios(tier string) []scenario {
 	// ResponseWriter / middleware
 	type rw struct{ ct, uri, payload string }
 	for _, c := range []rw{{"text/css", "/x", "a{b:0px}"}, {"", "/s.css", "a{b:0px}"}, {"text/html; charset=utf-8", "/i.css", "<p>a  b"}, {"", "/x.unknownext", "a  b"},
-		{"application/json", "/", `[1000,}`}, {"", "/noext", "a  b"}, {"text/plain", "/a.css", "a{b:0px}"}} {
+		{"application/json", "/", `[1000,}`}, {"", "/noext", "a  b"}, {"text/plain", "/a.css", "a{b:0px}"},
+		// media types with parameters that reach minifiers registered by regular expression (as in the README)
+		{"application/json; charset=utf-8", "/", `[1000, 2]`}, {"", "/app.js", "var  x = 1 ;"}, {"application/ld+json;charset=UTF-8", "/", `{"a" : 1}`}, {"", "/f.xml", "<a> <b/> </a>"}, {"image/svg+xml; charset=utf-8", "/", "<svg> <g/> </svg>"}} {
 		for _, kind := range []string{"ResponseWriter", "Middleware", "MiddlewareWithError"} {
 			for i, cs := range compositions([]byte(c.payload), 2) {
 				if !thorough && i%3 != 0 {
